@@ -45,10 +45,10 @@ func genMem(g *genCtx) {
 type liveResult struct {
 	id    int
 	kind  string
-	snap  string             // snapshot (JSON of the projection / copy of the bytes)
-	read  func() string      // re-reads the current content
-	owned []byte             // for byte results: the slice the caller may scribble over
-	pdu   codecPDU           // for decode results
+	snap  string        // snapshot (JSON of the projection / copy of the bytes)
+	read  func() string // re-reads the current content
+	owned []byte        // for byte results: the slice the caller may scribble over
+	pdu   codecPDU      // for decode results
 	tn    string
 }
 
